@@ -745,6 +745,28 @@ func (w *World) Apply(op Op) ApplyResult {
 			return ApplyResult{Err: err, Clause: "open-error", Detail: "Open after clean Close: " + panicDetail(err)}
 		}
 		return ApplyResult{}
+	case "restarttear": // restart after a torn tail: the newest data file lost its last Arg bytes between Close and Open
+		if err := w.Close(); err != nil {
+			return ApplyResult{Err: err, Clause: "close-error", Detail: "Close: " + panicDetail(err)}
+		}
+		if ents, err := os.ReadDir(w.Dir); err == nil {
+			newest := ""
+			for _, e := range ents {
+				if strings.HasSuffix(e.Name(), ".data") && e.Name() > newest {
+					newest = e.Name()
+				}
+			}
+			if newest != "" {
+				p := filepath.Join(w.Dir, newest)
+				if st, err := os.Stat(p); err == nil && st.Size() >= int64(op.Arg) {
+					os.Truncate(p, st.Size()-int64(op.Arg))
+				}
+			}
+		}
+		if err := w.Open(); err != nil {
+			return ApplyResult{Err: err, Clause: "open-error", Detail: "Open after a torn tail: " + panicDetail(err)}
+		}
+		return ApplyResult{}
 	case "restartslash": // clean restart under the other spelling of the same directory (with / without a trailing separator)
 		if err := w.Close(); err != nil {
 			return ApplyResult{Err: err, Clause: "close-error", Detail: "Close: " + panicDetail(err)}
